@@ -63,3 +63,14 @@ claim('C20', 'Coq theorems (equality relation, heap invariant over any mutation 
       'hexundump(hexdump(d, n), n) = d for every byte string and line size at the character level. The extracted model (equality, heap '
       'operation language, hexdump text) is compared with the library; oracles check views, independence at every nested object, search.',
       'DESIGN.md 6/C20')
+claim('C01', 'Coq theorem by structural induction over the construct syntax (closed sequential fragment) + correspondence + round-trip oracle',
+      'roundtrip_fragment: for every construct satisfying the decidable predicate frag (FormatField integers, BytesInteger of any width, VarInt, '
+      'ZigZag, Bytes, GreedyBytes in tail position, Pass, Const, Renamed, Struct, Sequence, Array, Prefixed with any integer length field, Padded, '
+      'Aligned, FixedSized - all parameters constants, any nesting depth) build-then-parse returns the value built, at any stream position. '
+      'Context-dependent members, strings, floats, mappings, bit-level and byte-transforming constructs are tied by correspondence with the '
+      'extracted model and by the round-trip oracle on the implementation (generated constructs to depth 4 x boundary values).', 'DESIGN.md 6/C01')
+claim('C02', 'Coq theorems (round trip by induction; unique / canonical encodings of integers, VarInt, Flag) + correspondence + idempotence oracle',
+      'C01_roundtrip_closed gives reproduction of self-produced bytes on the closed fragment; bytesint_parse_then_build (one encoding per value), '
+      'varint_normalises (non-minimal accepted, canonical emitted, stable), flag_canonical. The oracle evaluates build(parse(x)) idempotence '
+      'on the implementation for non-canonical inputs (non-minimal VarInts, all flag bytes, padding, trailing bytes in regions, duplicate '
+      'labels, alternatives), generated constructs x mutated encodings, and 15 gallery formats; three recorded known findings.', 'DESIGN.md 6/C02')
